@@ -52,6 +52,9 @@ def _copy(self):
 LM.Limit.copy = _copy
 
 
+PARSER = ProjectFileParser()   # one grammar compilation per runner process (history independence is C12's business)
+
+
 def frac(x):
     return Fraction(str(x))
 
@@ -411,7 +414,7 @@ def run_job(job):
     text = job["text"]
     VT.drain()
     try:
-        p0 = ProjectFileParser().parse(text, schedule=False)
+        p0 = PARSER.parse(text, schedule=False)
     except BaseException as ex:  # noqa: BLE001 - classify everything
         return [{"id": job["id"], "sc": 0, "status": "rejected", "error": type(ex).__name__ + ": " + str(ex)[:300],
                  "events": [], "nevents": len(VT.drain())}]
@@ -432,7 +435,7 @@ def run_job(job):
     err = None
     p = None
     try:
-        p = ProjectFileParser().parse(text)
+        p = PARSER.parse(text)
     except BaseException:  # noqa: BLE001
         status = "crash"
         err = traceback.format_exc()[-1500:]
@@ -441,7 +444,7 @@ def run_job(job):
         if sc >= nsc:
             continue
         if abstracts.get(sc) is None:
-            p1 = ProjectFileParser().parse(text, schedule=False)
+            p1 = PARSER.parse(text, schedule=False)
             VT.drain()
             abstracts[sc] = extract(p1, sc)
         A, tix, rix = abstracts[sc]
